@@ -587,6 +587,20 @@ func vfOracleC04(env *vfEnv, m *LockManager, pre, post *vfSnap, op int, cmd *pro
 			}
 		}
 	}
+	// service order of the queue after the step: by priority (higher first), among equal priorities by
+	// arrival (the pre-state's requests arrived in the order of their LockIds 11, 12, ...; a request
+	// queued by the step arrived last)
+	arrival := func(w vfSnapLock) int {
+		if pre.waiterByPtr(w.l) >= 0 {
+			return int(w.lockId[15])
+		}
+		return 1000
+	}
+	for i := 0; i+1 < len(post.waiters); i++ {
+		a, b := post.waiters[i], post.waiters[i+1]
+		vfAssert(vfPrio(a) > vfPrio(b) || (vfPrio(a) == vfPrio(b) && arrival(a) < arrival(b)),
+			"C04: the queue's service order is not priority first, arrival order among equal priorities")
+	}
 	vfC04Quiescent(env, m, pre, post)
 }
 
